@@ -220,7 +220,16 @@ def arg_of(kind, n, rng, TYPES):
     return int_bits(w, rng)
 
 
+_CACHE = {}
 def float_boundaries(n, kind, rng, nties):
+    """cached wrapper (the boundary set is deterministic: its own fixed-seed generator)"""
+    key = ('fb', n, kind, nties)
+    if key not in _CACHE:
+        import random as _r
+        _CACHE[key] = list(_float_boundaries(n, kind, _r.Random(7700 + n), nties))
+    return _CACHE[key]
+
+def _float_boundaries(n, kind, rng, nties):
     """from_f32 / from_f64 into an n-bit posit: every (or `nties` sampled) rounding boundary of the TARGET expressed as a float:
     the tie, its float neighbours, and the tie with one extra mantissa bit set / cleared at every position; both signs"""
     import struct, sys, os
@@ -248,6 +257,16 @@ def float_boundaries(n, kind, rng, nties):
                     yield (q,); yield (q | S,)
 
 def target_boundaries(n, op, rng):
+    """cached wrapper (deterministic per class of operation)"""
+    import re as _re
+    lo = op.lower()
+    key = ('tb', n, 'f32' in lo, bool(_re.search(r'to_([iu])(8|16|32|64|size)|^([iu])(8|16|32|64|size)::from', lo) or 'round' in lo or 'ceil' in lo or 'floor' in lo or 'trunc' in lo))
+    if key not in _CACHE:
+        import random as _r
+        _CACHE[key] = list(_target_boundaries(n, op, _r.Random(8800 + n)))
+    return _CACHE[key]
+
+def _target_boundaries(n, op, rng):
     """conversions out of a wide posit: rounding boundaries of the *target* format expressed as source patterns"""
     # conversions out of a wide posit: every kind of rounding boundary of the *target* format expressed as source patterns
     import sys, os, re as _re
@@ -278,6 +297,66 @@ def target_boundaries(n, op, rng):
                     for d in (0, 1, -1):
                         yield ((sgn * (p + d)) & M,)
 
+def narrowing_sources(src, tgt, es_s=None, es_t=None, npts=700):
+    """posit -> narrower posit: every (tgt <= 8) or `npts` sampled rounding boundaries of the target expressed in the source format:
+    the tie, its +-1 neighbours, and the tie +- ONE bit at every lower position (a sticky mask that misses a position), both signs.
+    Formats are (bits, es); es defaults to the standard one of the width.  Deterministic (own fixed-seed generator), cached."""
+    es_s = _ES[src] if es_s is None else es_s
+    es_t = _ES[tgt] if es_t is None else es_t
+    key = ('nb', src, es_s, tgt, es_t, npts)
+    if key in _CACHE: return _CACHE[key]
+    import sys, os, random as _r
+    sys.path.insert(0, os.path.join(os.path.dirname(os.path.dirname(os.path.abspath(__file__))), 'tools'))
+    from pyspec import to_rat, rnd
+    if tgt <= 8: pts = list(range(1 << tgt))
+    elif tgt <= 3: pts = list(range(1 << tgt))
+    else: pts = interesting_posits(tgt, _r.Random(9900 + src + tgt), npts)
+    out = []; M = (1 << src) - 1
+    for p in pts:
+        v = to_rat(tgt + 1, es_t, ((p << 1) | 1) & ((1 << (tgt + 1)) - 1))     # the tie between p and its successor
+        if v is None: continue
+        mid = rnd(src, es_s, v)
+        for d in (0, 1, -1): out.append(((mid + d) & M,))
+        for j in range(1, src - 1):
+            for q in (mid + (1 << j), mid - (1 << j)):
+                if 0 < q < (1 << (src - 1)):
+                    out.append((q,)); out.append(((-q) & M,))
+    _CACHE[key] = out
+    return out
+
+def ulpscale_pairs(n, es, rng, count):
+    """operand pairs for + and -: a structured A (powers of two, all-ones fractions, random) and a B whose magnitude is a simple
+    multiple (1/8 .. 2, and 1/2 +- a sliver) of the spacing of the posits next to A, above AND below — where the alignment shift of
+    the smaller operand ends at the guard / sticky position of the larger (early-out thresholds, lost borrow, lost sticky bit).
+    Patterns are n-bit (caller left-aligns for generic widths)."""
+    import sys, os
+    sys.path.insert(0, os.path.join(os.path.dirname(os.path.dirname(os.path.abspath(__file__))), 'tools'))
+    from pyspec import to_rat, rnd
+    from fractions import Fraction as Fr
+    M = (1 << n) - 1; half = 1 << (n - 1)
+    out = []
+    mults = [Fr(1, 8), Fr(1, 4), Fr(3, 8), Fr(1, 2), Fr(5, 8), Fr(3, 4), Fr(1), Fr(3, 2), Fr(2), Fr(1, 2) + Fr(1, 64), Fr(1, 2) - Fr(1, 64), Fr(3, 4) + Fr(1, 128)]
+    while len(out) < count:
+        t = rng.randint(0, 3)
+        if t == 0:                                       # exact power of two (weighted towards the centre, where fractions are longest)
+            e = rng.randint(-8, 8) if rng.getrandbits(1) else rng.randint(-(n - 2) * (1 << es), (n - 2) * (1 << es))
+            a = rnd(n, es, Fr(2) ** e)
+        elif t == 1: a = anyp(n, rng) & (half - 1)
+        else: a = structured_posit(n, rng) & (half - 1)
+        a &= half - 1
+        if a == 0 or a >= half - 1: continue
+        va = to_rat(n, es, a)
+        up = to_rat(n, es, a + 1) - va; dn = va - to_rat(n, es, a - 1) if a > 1 else up
+        for u in (up, dn):
+            m = rng.choice(mults)
+            b = rnd(n, es, u * m)
+            if b == 0: continue
+            b = (b + rng.choice((0, 0, 1, -1))) & (half - 1) or 1
+            sa = rng.getrandbits(1); sb = rng.getrandbits(1)
+            A = (-a) & M if sa else a; B = (-b) & M if sb else b
+            out.append((A, B) if rng.getrandbits(1) else (B, A))
+    return out[:count]
+
 def cases_for(ty, n, args, count, rng, TYPES, exhaustive_limit=1 << 16, op=''):
     """yield argument tuples for an op with the given arg kinds"""
     args = list(args)
@@ -294,19 +373,7 @@ def cases_for(ty, n, args, count, rng, TYPES, exhaustive_limit=1 << 16, op=''):
             import sys, os
             sys.path.insert(0, os.path.join(os.path.dirname(os.path.dirname(os.path.abspath(__file__))), 'tools'))
             from pyspec import to_rat, rnd
-            es_s, es_t = _ES[src], _ES[tgt]
-            pts = interesting_posits(tgt, rng, 700) if tgt > 8 else list(range(1 << tgt))
-            for p in pts:
-                v = to_rat(tgt + 1, es_t, ((p << 1) | 1) & ((1 << (tgt + 1)) - 1))     # the tie between p and its successor
-                if v is None: continue
-                mid = rnd(src, es_s, v)
-                for d in (0, 1, -1):
-                    yield ((mid + d) & ((1 << src) - 1),)
-                # the tie plus / minus ONE bit at every lower position (a sticky mask that misses a position), both signs
-                for j in range(1, src - 1):
-                    for q in (mid + (1 << j), mid - (1 << j)):
-                        if 0 < q < (1 << (src - 1)):
-                            yield (q,); yield ((-q) & ((1 << src) - 1),)
+            for t_ in narrowing_sources(src, tgt): yield t_
     if all(k == 'P' for k in args):
         if n ** 0 and (1 << (n * len(args))) <= exhaustive_limit:
             N = 1 << n
@@ -331,6 +398,9 @@ def cases_for(ty, n, args, count, rng, TYPES, exhaustive_limit=1 << 16, op=''):
             if kind and n > 8:
                 for _ in range(min(count // 3, 15000)):
                     yield neartie_pair(n, kind, rng); k += 1
+            if kind in ('add', 'sub') and n > 8:
+                for pr in ulpscale_pairs(n, _ES[n], rng, min(count // 4, 12000)):
+                    yield pr; k += 1
             while k < count:
                 yield related_pair(n, rng); k += 1
             return
